@@ -337,6 +337,12 @@ mod string {
     }
 
     pub fn slice(s: &str, start: usize, end: usize) -> RuntimeResult<&str, String> {
+        if start > end {
+            return RuntimeResult::Panic(format!(
+                "slice index starts at {} but ends at {}",
+                start, end
+            ));
+        }
         if s.is_char_boundary(start) && s.is_char_boundary(end) {
             RuntimeResult::Return(&s[start..end])
         } else {
